@@ -168,6 +168,13 @@ def bool_event(c):
     def text(e):
         st = c.get('style', 'sym')
         return render_chain(e) if st == 'chain' else render(e, st, rnd)
+    keep = []
+    for ptext, pord in c.get('pre', []):          # diagrams kept alive while the event runs (history in the global heap)
+        try:
+            keep.append(OBDD(ptext, list(pord)))
+            keep.append(~keep[-1])
+        except Exception:
+            pass
     if op == 'build':
         s = text(c['e'])
         ev['text'] = s
